@@ -184,8 +184,7 @@ def random_heap(rng, nobj, kinds=('config', 'config', 'list', 'tuple', 'dict', '
       for it in o['items']:
         if isinstance(it['val'], int) and it['val'] < 0:
           refc[-it['val']] = refc.get(-it['val'], 0) + 1
-    bad = any(o['k'] in ('tuple', 'ntuple') and all(it['val'] > 0 for it in o['items'])
-              and refc.get(i + 1, 0) > 1 for i, o in enumerate(canon))
+    bad = H.has_shared_internable(canon)
     n_empty = sum(1 for o in heap if o['k'] == 'tuple' and not o['items'])
     if not bad and n_empty <= 1 and len(canon) >= max(2, nobj // 2):
       return canon
